@@ -19,6 +19,19 @@ BELONGS = {   # packet type -> (phase it belongs to, profiles)
 }
 
 
+def masked_canon(w):
+    """Canonical state with the identifier counter masked: a refused call may burn an identifier (the statement
+    does not mention the counter; same reading as C20)."""
+    ids = [f.id for f in w.factories]
+    for f in w.factories:
+        f.id = -1
+    try:
+        return canon_world(w)
+    finally:
+        for f, i in zip(w.factories, ids):
+            f.id = i
+
+
 def phase_of(w, c):
     if c.lost:
         return 'lost'
@@ -34,7 +47,7 @@ class Mon(Monitor):
         self.prev = None
         if ev[0] == 'probe':
             c = w.conn(ev[2])
-            self.prev = (canon_world(w), phase_of(w, c), [r.pending for r in w.reqs])
+            self.prev = (masked_canon(w), phase_of(w, c), [r.pending for r in w.reqs])
 
     def step(self, w):
         out = []
@@ -54,7 +67,7 @@ class Mon(Monitor):
         c = w.conn(inner[1])
         new = w.new_obs()
         wrote = [p['type'] for ci, p, o in writes(w)]
-        changed = canon_world(w) != canon0
+        changed = masked_canon(w) != canon0
         prof = w.profile
         tag = '%s/%s' % (prof, ph)
         if inner[0] in ('connect', 'pub', 'sub', 'unsub', 'disconnect'):
